@@ -99,10 +99,23 @@ B64Val(c) == IF InRange(c, 65, 90) THEN c - 65
              ELSE IF c \in {47, 95} THEN 63 ELSE 99
 
 (* ------------------------------ decoding ------------------------------- *)
-\* Horner by halves for long digit strings (the plain rule is quadratic in TLC)
+\* Long digit strings.  Radix 2^k: the digits are regrouped bit by bit into limbs (no arithmetic);
+\* other radices: Horner by halves (the plain rule is quadratic in TLC's sequences).
+Log2Of(base) == CASE base = 2 -> 1 [] base = 4 -> 2 [] base = 8 -> 3 [] base = 16 -> 4
+                  [] base = 32 -> 5 [] base = 64 -> 6 [] OTHER -> 0
+Pow2ToNat(ds, bits) ==
+    LET n == Len(ds)
+        T == n * bits
+        Bit(p) == IF p >= T THEN 0 ELSE (ds[n - (p \div bits)] \div Pow2Small(p % bits)) % 2
+        L == (T + BBits - 1) \div BBits
+    IN NatNorm([j \in 1..L |->
+                  LET o == BBits * (j - 1)
+                  IN Bit(o) + 2 * Bit(o + 1) + 4 * Bit(o + 2) + 8 * Bit(o + 3) + 16 * Bit(o + 4) + 32 * Bit(o + 5)
+                     + 64 * Bit(o + 6) + 128 * Bit(o + 7) + 256 * Bit(o + 8) + 512 * Bit(o + 9)])
 RECURSIVE DigitsToNat(_, _)
 DigitsToNat(ds, base) ==
     IF Len(ds) <= 24 THEN NatFromDigits(ds, base)
+    ELSE IF Log2Of(base) > 0 THEN Pow2ToNat(ds, Log2Of(base))
     ELSE LET h == Len(ds) \div 2
              hi == DigitsToNat(SubSeq(ds, 1, Len(ds) - h), base)
              lo == DigitsToNat(SubSeq(ds, Len(ds) - h + 1, Len(ds)), base)
@@ -466,8 +479,14 @@ Finish(st) ==
          [] m = "unk" -> st
          [] OTHER -> Undefined(st)
 
-RECURSIVE FeedAll(_, _, _)
-FeedAll(st, text, j) == IF j > Len(text) \/ st.eps < 0 THEN st ELSE FeedAll(Step(st, text[j]), text, j + 1)
+\* feed text[lo..hi]; by halves, so that the evaluation depth stays logarithmic in the length
+RECURSIVE FeedRange(_, _, _, _)
+FeedRange(st, text, lo, hi) ==
+    IF lo > hi \/ st.eps < 0 THEN st
+    ELSE IF lo = hi THEN Step(st, text[lo])
+    ELSE LET mid == (lo + hi) \div 2
+         IN FeedRange(FeedRange(st, text, lo, mid), text, mid + 1, hi)
+FeedAll(st, text, j) == FeedRange(st, text, j, Len(text))
 \* the whole lexer: final state; .mode = "end" and .toks the token list, or .mode = "unk"
 Lex(text) == Finish(FeedAll(St0, text, 1))
 
